@@ -155,10 +155,10 @@ _OB = {
     "ob_deallocate": (["C13", "C01", "C02", "C10", "C16"], ["allocator_impl::deallocate", "allocator_impl::is_last", "allocator_impl::deallocate_assume_last", "raw_bump::NonDummyChunk::set_pos_addr_and_align"],
                       "for ANY block inside the allocated region: DEALLOCATES && newest block => pos' = align_pos(block start / end), only the block is reclaimed; otherwise no header field changes and allocated bytes unchanged; never writes content; wf",
                       "K<=2, block size<=200, align<=32"),
-    "ob_bump_alloc": (["C01", "C02", "C07", "C10", "C12", "C05", "C03"], ["raw_bump::RawBump::alloc", "raw_bump::RawBump::alloc_in_another_chunk", "raw_bump::RawBump::in_another_chunk", "raw_bump::NonDummyChunk::append_for", "raw_bump::NonDummyChunk::new", "raw_bump::NonDummyChunk::grow_size", "raw_bump::NonDummyChunk::reset"],
+    "ob_bump_alloc": (["C01", "C02", "C07", "C10", "C12", "C05", "C03", "C15"], ["raw_bump::RawBump::alloc", "raw_bump::RawBump::alloc_in_another_chunk", "raw_bump::RawBump::in_another_chunk", "raw_bump::NonDummyChunk::append_for", "raw_bump::NonDummyChunk::new", "raw_bump::NonDummyChunk::grow_size", "raw_bump::NonDummyChunk::reset"],
                       "Ok: aligned, inside owned memory, block was free; served from a later chunk only after that chunk's position was reset, earlier chunks untouched; or exactly one new chunk appended, request fits in it (unreachable_unchecked never reached), links symmetric, strictly larger, >= 2*prev-16; Err (failing base allocator): no chunk leaked, invariant holds, current chunk valid; allocated set only grows; no content byte written; nothing released",
                       "K<=3, layout size<=200, align<=64, base allocator fails nondeterministically"),
-    "ob_bump_alloc_nogrow": (["C01", "C02", "C07", "C10", "C03"], ["raw_bump::RawBump::alloc", "raw_bump::RawBump::in_another_chunk"],
+    "ob_bump_alloc_nogrow": (["C01", "C02", "C07", "C10", "C03", "C15"], ["raw_bump::RawBump::alloc", "raw_bump::RawBump::in_another_chunk"],
                              "same contract with a base allocator that refuses every further chunk",
                              "K=2, layout size<=200"),
     "ob_reset": (["C03", "C05", "C10"], ["raw_bump::RawBump::reset", "raw_bump::NonDummyChunk::deallocate", "raw_bump::NonDummyChunk::layout", "raw_bump::NonDummyChunk::for_each_prev", "raw_bump::RawBump::manually_drop"],
@@ -170,7 +170,7 @@ _OB = {
     "ob_stats": (["C10"], ["stats::Stats::*", "stats::Chunk::*", "stats::any::AnyStats::*", "stats::any::AnyChunk::*", "raw_bump::NonDummyChunk::{size,capacity,allocated,remaining,chunk_start,chunk_end,content_start,content_end}"],
                  "count/size/capacity/allocated/remaining equal the sums over the grant-derived geometry; allocated+remaining == capacity <= size; per chunk ranges equal the geometry; forward and backward iteration are reverses; AnyChunk/AnyStats report the same numbers and ranges as the typed ones",
                  "K<=3; allocators: ZST, 8-byte, align-32"),
-    "ob_realloc": (["C02", "C01", "C13", "C16"], ["allocator_impl::grow", "allocator_impl::grow_zeroed", "allocator_impl::shrink", "allocator_impl::align_fits", "without_dealloc::WithoutShrink::shrink", "without_dealloc::WithoutDealloc::{grow,shrink}", "bump_down (lib.rs)"],
+    "ob_realloc": (["C02", "C01", "C13", "C16", "C07", "C10"], ["allocator_impl::grow", "allocator_impl::grow_zeroed", "allocator_impl::shrink", "allocator_impl::align_fits", "without_dealloc::WithoutShrink::shrink", "without_dealloc::WithoutDealloc::{grow,shrink}", "bump_down (lib.rs)"],
                    "for ANY live sub-block and independent old/new alignments: result aligned, >= requested, inside owned memory; first min(old,new) bytes preserved (witness index); no byte outside the new block written (witness byte); new block disjoint from every other allocated byte; other allocated bytes stay allocated; grow_zeroed tail zero; upward newest block with room grows in place; shrinking a non-newest block reclaims nothing; SHRINKS=false / WithoutShrink never decrease allocated; Err only when the base allocator refuses and then nothing is written; wf",
                    "one chunk of 48 bytes (quick) / 48+112 bytes (thorough), old size<=8..24, new size<=12..32, old align<=16, new align<=32, base allocator refuses further chunks"),
     "ob_allocate_zeroed": (["C02", "C01"], ["alloc::Allocator::allocate_zeroed (default method) for BumpScope", "allocator_impl::allocate"],
@@ -196,7 +196,7 @@ _OB = {
     "ob_entry_pair": (["C17", "C10"], ["raw_bump::RawBump::{alloc,alloc_sized,alloc_slice,alloc_slice_for}", "allocator_impl::allocate", "traits::BumpAllocatorTyped::{try_allocate_layout,try_allocate_sized} (BumpScope, dyn BumpAllocatorCore)", "Allocator::allocate for BumpScope / &BumpScope / WithoutDealloc / WithoutShrink<WithoutDealloc> / dyn BumpAllocatorCore", "traits::BumpAllocatorTypedScope::{try_alloc,alloc,try_alloc_slice_copy}", "layout::{SizedLayout,ArrayLayout,CustomLayout}"],
                       "relational: from the same arbitrary state the entry point yields the same success/failure, the same block address, the same new position and current chunk as RawBump::alloc with the layout it stands for; value-level results (stored value / copied slice) equal; wf",
                       "one chunk of 112 bytes (one instantiation: 48+112), T=[u16;3] / u32 x n<=5 / symbolic layout <=24 bytes, base allocator refuses new chunks"),
-    "ob_prepared_slice": (["C15", "C01", "C10"], ["traits::BumpAllocatorTyped::{try_prepare_slice_allocation,allocate_prepared_slice,try_prepare_slice_allocation_rev,allocate_prepared_slice_rev} (BumpScope)", "traits::BumpAllocatorCore::{prepare_allocation,allocate_prepared,prepare_allocation_rev,allocate_prepared_rev} (BumpScope)", "raw_bump::RawBump::{prepare_slice_allocation,prepare_slice_allocation_rev,prepare_allocation_range}"],
+    "ob_prepared_slice": (["C15", "C01", "C10", "C18", "C02"], ["traits::BumpAllocatorTyped::{try_prepare_slice_allocation,allocate_prepared_slice,try_prepare_slice_allocation_rev,allocate_prepared_slice_rev} (BumpScope)", "traits::BumpAllocatorCore::{prepare_allocation,allocate_prepared,prepare_allocation_rev,allocate_prepared_rev} (BumpScope)", "raw_bump::RawBump::{prepare_slice_allocation,prepare_slice_allocation_rev,prepare_allocation_range}"],
                           "prepare and filling change no header field; capacity >= requested, range inside the free part; commit yields exactly len elements equal to the pushed ones (in order; reversed pushing for _rev), block inside the prepared range at its bump-side end, position = end/start of the block aligned to MIN_ALIGN, advance < size + padding; wf",
                           "one chunk of 48 bytes, T=u16, cap request <=3, len<=cap"),
     "ob_overflow_and_reserve": (["C07"], ["raw_bump::RawBump::{alloc_slice,prepare_slice_allocation,prepare_allocation_range,reserve}", "layout::ArrayLayout::array"],
@@ -209,13 +209,13 @@ _OB = {
     "ob_with_settings_unallocated": (["C18"], ["raw_bump::RawBump::ensure_satisfies_settings"],
                                      "conversion to GUARANTEED_ALLOCATED on an unallocated arena never returns (panics); conversion keeping GUARANTEED_ALLOCATED=false returns and the arena stays unallocated",
                                      "loop-free"),
-    "ob_mut_vec": (["C15", "C08"], ["mut_bump_vec::MutBumpVec::{new_in,try_push,generic_grow_amortized,generic_grow_to,into_slice,into_slice_ptr,drop}", "mut_bump_vec_rev::MutBumpVecRev::{new_in,try_push,generic_grow_amortized,generic_grow_to,into_slice,into_slice_ptr,drop}", "fixed_bump_vec::raw::RawFixedBumpVec::*"],
+    "ob_mut_vec": (["C15", "C08", "C01", "C18"], ["mut_bump_vec::MutBumpVec::{new_in,try_push,generic_grow_amortized,generic_grow_to,into_slice,into_slice_ptr,drop}", "mut_bump_vec_rev::MutBumpVecRev::{new_in,try_push,generic_grow_amortized,generic_grow_to,into_slice,into_slice_ptr,drop}", "fixed_bump_vec::raw::RawFixedBumpVec::*"],
                    "pushing (including the growth that prepares a bigger range) never moves the bump position; dropping an unfinalised vector leaves the position where it was; into_slice yields exactly the pushed elements (rev: last pushed first), allocated, position advanced by contents + padding < max(align, MIN_ALIGN); len/capacity consistent; wf",
                    "one chunk of 48 bytes, element u16, <=3 pushes, base allocator refuses new chunks"),
     "ob_mut_vec_failed_grow": (["C07", "C15", "C10"], ["mut_bump_vec::MutBumpVec::{try_push,try_reserve,generic_grow_amortized,generic_grow_to,into_slice}", "raw_bump::RawBump::{prepare_slice_allocation,prepare_allocation_range,in_another_chunk}", "traits::BumpAllocatorCore::allocate_prepared (BumpScope)"],
                                "a reservation that fails (no chunk fits, base allocator refuses) after the slow path looked at a cached later chunk: length and contents unchanged, current chunk unchanged, into_slice still yields the elements inside allocated memory, allocated bytes account for the slice, wf; a reservation that succeeds in the later chunk keeps the elements",
                                "K=2 (48+112 bytes), element u8, <=2 pushes, reserve <=400"),
-    "ob_prepared_slice_dyn": (["C15", "C17", "C01"], ["traits::bump_allocator_typed::for_trait_object::{prepare_slice_allocation,allocate_prepared_slice,prepare_slice_allocation_rev,allocate_prepared_slice_rev}", "traits::BumpAllocatorCore::{prepare_allocation,allocate_prepared,prepare_allocation_rev,allocate_prepared_rev} (BumpScope)"],
+    "ob_prepared_slice_dyn": (["C15", "C17", "C01", "C18", "C02"], ["traits::bump_allocator_typed::for_trait_object::{prepare_slice_allocation,allocate_prepared_slice,prepare_slice_allocation_rev,allocate_prepared_slice_rev}", "traits::BumpAllocatorCore::{prepare_allocation,allocate_prepared,prepare_allocation_rev,allocate_prepared_rev} (BumpScope)"],
                               "the same prepare/fill/commit contract as ob_prepared_slice through `dyn BumpAllocatorCore` (generic commit path); since both entry points satisfy the same functional postcondition they are interchangeable",
                               "one chunk of 48 bytes, T=u16, cap request <=3, len<=cap"),
     "ob_overgrant": (["C05", "C10", "C12", "C01"], ["raw_bump::NonDummyChunk::{new,layout,deallocate}", "chunk::size::ChunkSize::align_allocation_size", "chunk::size_config::ChunkSizeConfig::align_size", "raw_bump::RawChunk::alloc", "raw_bump::RawBump::manually_drop"],
@@ -245,8 +245,12 @@ _OB = {
 _THOROUGH = {"mut_vec_dn8", "mut_vec_rev_up8", "scope_guard_dn8", "scoped_closure_up8", "claim_guard_dn8", "aligned_up8_to2", "scoped_aligned_up1_to8",
              "bump_alloc_up8_k3", "stats_up1_zst_k3"}
 
+# harnesses that exist in the files but gave no verdict on the unchanged tree within the thorough timeout (40 min) /
+# memory limit (14 GB); kept out of the registry so that every registered command exits 0 on the unchanged tree
+_PRUNED = {"shrink_dn1_k2", "grow_dn8_k2", "grow_dn1_k2"}
+
 for (_f, _name, _gen, _args) in _arena_h():
-    if _gen not in _OB or _name.startswith("exp_"):
+    if _gen not in _OB or _name.startswith("exp_") or _name in _PRUNED:
         continue
     _props, _fns, _text, _bound = _OB[_gen]
     _thorough = (_f == "h_realloc" and (_name.endswith("_k2") or _name.endswith("_128") or _name.endswith("_t"))) or _name in _THOROUGH
@@ -265,13 +269,13 @@ for _n, _p, _fns, _t in [
     ("merge_restores_whole", ["C16"], ["bump_box::BumpBox<[T]>::merge", "bump_box::BumpBox<[T]>::split_at"], "merge of the two adjacent parts of split_at is the original slice (address, length, every element)"),
     ("merge_non_adjacent_panics", ["C16"], ["bump_box::BumpBox<[T]>::merge"], "merging non-adjacent parts never returns (must-not-reach cover unsatisfiable; panics)"),
     ("split_off_first_last_and_spare", ["C16"], ["bump_box::BumpBox<[T]>::{split_off_first,split_off_last}", "fixed_bump_vec::FixedBumpVec::split_at_spare"], "element + rest partition the slice in order; split_at_spare: initialized part and spare capacity adjacent, lengths add up to the capacity"),
-    ("split_off_all_ranges_len3", ["C16", "C08"], ["bump_box::BumpBox<[T]>::split_off", "polyfill::slice::range"], "for EVERY range lo..hi of a slice of length 3 (symbolic element values): lengths add up, the part is the range in order, the rest keeps its order, parts adjacent and inside the original"),
-    ("split_off_all_ranges_len4", ["C16", "C08"], ["bump_box::BumpBox<[T]>::split_off"], "the same for length 4"),
-    ("split_off_all_ranges_len5", ["C16", "C08"], ["bump_box::BumpBox<[T]>::split_off"], "the same for length 5"),
-    ("split_off_all_ranges_len6", ["C16", "C08"], ["bump_box::BumpBox<[T]>::split_off"], "the same for length 6"),
-    ("fixed_split_off_all_ranges_len4", ["C16", "C08"], ["fixed_bump_vec::FixedBumpVec::split_off"], "for EVERY range of a fixed vector of length 4 / capacity 6: lengths and capacities add up, capacity >= len, part and rest in order, buffers disjoint and inside the original"),
-    ("fixed_split_off_all_ranges_len5", ["C16", "C08"], ["fixed_bump_vec::FixedBumpVec::split_off"], "the same for length 5"),
-    ("fixed_split_off_all_ranges_len6", ["C16", "C08"], ["fixed_bump_vec::FixedBumpVec::split_off"], "the same for length 6 (full)"),
+    ("split_off_all_ranges_len3", ["C16", "C08", "C06", "C01"], ["bump_box::BumpBox<[T]>::split_off", "polyfill::slice::range"], "for EVERY range lo..hi of a slice of length 3 (symbolic element values): lengths add up, the part is the range in order, the rest keeps its order, parts adjacent and inside the original"),
+    ("split_off_all_ranges_len4", ["C16", "C08", "C06", "C01"], ["bump_box::BumpBox<[T]>::split_off"], "the same for length 4"),
+    ("split_off_all_ranges_len5", ["C16", "C08", "C06", "C01"], ["bump_box::BumpBox<[T]>::split_off"], "the same for length 5"),
+    ("split_off_all_ranges_len6", ["C16", "C08", "C06", "C01"], ["bump_box::BumpBox<[T]>::split_off"], "the same for length 6"),
+    ("fixed_split_off_all_ranges_len4", ["C16", "C08", "C06", "C01"], ["fixed_bump_vec::FixedBumpVec::split_off"], "for EVERY range of a fixed vector of length 4 / capacity 6: lengths and capacities add up, capacity >= len, part and rest in order, buffers disjoint and inside the original"),
+    ("fixed_split_off_all_ranges_len5", ["C16", "C08", "C06", "C01"], ["fixed_bump_vec::FixedBumpVec::split_off"], "the same for length 5"),
+    ("fixed_split_off_all_ranges_len6", ["C16", "C08", "C06", "C01"], ["fixed_bump_vec::FixedBumpVec::split_off"], "the same for length 6 (full)"),
     ("drops_clear", ["C06"], ["bump_box::BumpBox<[T]>::clear", "Drop for BumpBox"], "every element dropped exactly once"),
     ("drops_truncate", ["C06"], ["bump_box::BumpBox<[T]>::truncate"], "every element dropped exactly once"),
     ("drops_remove", ["C06"], ["bump_box::BumpBox<[T]>::remove"], "removed value not dropped until the caller drops it; every element dropped exactly once"),
@@ -296,9 +300,9 @@ for _n, _p, _fns, _t in [
     ("partition_map_flatten_len3", ["C16", "C08"], ["bump_box::BumpBox<[T]>::{partition,map_in_place,into_flattened}", "polyfill::iter::partition_in_place"], "partition: every element exactly once (witness value count), left satisfies / right does not, parts adjacent; map_in_place (same and smaller layout) and into_flattened keep count and order"),
     ("partition_map_flatten_len4", ["C16", "C08"], ["bump_box::BumpBox<[T]>::{partition,map_in_place,into_flattened}"], "same, length 4"),
     ("partition_map_flatten_len6", ["C16", "C08"], ["bump_box::BumpBox<[T]>::{partition,map_in_place,into_flattened}"], "same, length 6"),
-    ("drops_all_ranges_len2", ["C06"], ["bump_box::BumpBox<[T]>::{split_off,drain,extract_if,dedup_by}", "owned_slice::{drain::Drain,extract_if::ExtractIf}"], "for every range: split_off (parts dropped in either order), drain consumed k=0..n elements then dropped, extract_if partially consumed, dedup_by: every element dropped exactly once"),
-    ("drops_all_ranges_len3", ["C06"], ["bump_box::BumpBox<[T]>::{split_off,drain,extract_if,dedup_by}"], "same, length 3"),
-    ("drops_all_ranges_len4", ["C06"], ["bump_box::BumpBox<[T]>::{split_off,drain,extract_if,dedup_by}"], "same, length 4"),
+    ("drops_all_ranges_len2", ["C06", "C08"], ["bump_box::BumpBox<[T]>::{split_off,drain,extract_if,dedup_by}", "owned_slice::{drain::Drain,extract_if::ExtractIf}"], "for every range: split_off (parts dropped in either order), drain consumed k=0..n elements then dropped, extract_if partially consumed, dedup_by: every element dropped exactly once"),
+    ("drops_all_ranges_len3", ["C06", "C08"], ["bump_box::BumpBox<[T]>::{split_off,drain,extract_if,dedup_by}"], "same, length 3"),
+    ("drops_all_ranges_len4", ["C06", "C08"], ["bump_box::BumpBox<[T]>::{split_off,drain,extract_if,dedup_by}"], "same, length 4"),
     ("zst_drops_all_ranges_len2", ["C06", "C08"], ["owned_slice::drain::Drain::drop (zero-sized elements)", "bump_box::BumpBox<[T]>::{drain,split_off,truncate,pop,into_iter}"], "zero-sized element type with a counting Drop: for every range and every number of consumed elements (front or back) the number of drops equals the number of elements"),
     ("zst_drops_all_ranges_len3", ["C06", "C08"], ["owned_slice::drain::Drain::drop (zero-sized elements)"], "same, length 3"),
     ("zst_drops_all_ranges_len5", ["C06", "C08"], ["owned_slice::drain::Drain::drop (zero-sized elements)"], "same, length 5"),
@@ -328,7 +332,7 @@ for _pn in ("2_3", "4_1", "3_4", "1_2"):
       "for every out-of-range or non-boundary index (symbolic over all of them) truncate (inside the string) / split_off / remove never return (must-not-reach cover unsatisfiable; panic)",
       bound=_SB, timeout=900, inst="pattern " + _pn, should_panic=True)
 for _pn, _tier in (("1_1_2", "quick"), ("2_1_3", "quick"), ("1_2_1", "thorough"), ("2_3_2", "thorough")):
-    k("h_coll::fixed_str_split_off_" + _pn, ["C16", "C09", "C08"], ["fixed_bump_string::FixedBumpString::split_off", "fixed_bump_vec::FixedBumpVec::split_off"], "B",
+    k("h_coll::fixed_str_split_off_" + _pn, ["C16", "C09", "C08", "C06", "C01"], ["fixed_bump_string::FixedBumpString::split_off", "fixed_bump_vec::FixedBumpVec::split_off"], "B",
       "for EVERY boundary range of a three-character text: the part is the range, the rest keeps its order, both valid UTF-8, capacities add up to the original, the two buffers (capacity included) are disjoint and inside the original buffer",
       tier=_tier, bound="three characters with the concrete UTF-8 length pattern, all scalar values symbolic; every boundary range enumerated; buffer of 8 bytes", timeout=1500, inst="pattern " + _pn)
 for _l in (2, 3, 4):
@@ -374,7 +378,7 @@ def _stub_h():
           "BumpVec<u16>: %s; a refused request leaves length, capacity, buffer address and contents unchanged (C07); otherwise same contents as the model (C08); the buffer is a live aligned block and every grow/deallocate call gets a live block with a consistent layout (C01, checked inside the stub); drop reclaims at most the vector's own buffer (C13)%s" % (what, "; another block is handed out after the buffer, so growth moves it and nothing is reclaimed" if foreign == "true" else ""),
           bound=_STB, timeout=900, inst="UP=%s used=%s n=%s foreign=%s" % (up, used, n, foreign))
     _conv = {"0": ("shrink_to_fit", ["C08", "C13", "C02", "C01"]), "1": ("shrink_to", ["C08", "C02", "C01"]), "2": ("into_boxed_slice", ["C08", "C01", "C13"]), "3": ("into_fixed_vec", ["C08", "C01"]),
-             "4": ("split_off", ["C16", "C01", "C08"]), "5": ("into_iter", ["C08", "C01"])}
+             "4": ("split_off", ["C16", "C01", "C08", "C06"]), "5": ("into_iter", ["C08", "C01"])}
     for m in _re.finditer(r"^    (stub_conv_\w+): (true|false), (\d+), (\d+), (\d+), (true|false), (\d);", txt, _re.M):
         name, up, used, n, spare, foreign, op = m.groups()
         meth, props = _conv[op]
@@ -426,7 +430,7 @@ def _stub_h():
           "zero-sized element type with Drop + Clone that counts constructions and drops: capacity usize::MAX, no memory is ever requested, after every step #created - #dropped equals the number of values the vector (and the caller) still own - a value materialised from nothing inside the collection is never dropped; at the end every value was dropped exactly once",
           bound="contract stub (every request would be refused); one concrete sequence of 12 operations", timeout=900)
     _mops = {"0": "try_push", "1": "try_push_str", "2": "try_insert_str", "3": "try_reserve", "4": "try_extend_from_within"}
-    _no_verdict = {"stub_mut_str_push_up", "stub_mut_str_push_dn", "stub_mut_str_reserve_up"}  # no verdict within 10 min / 14 GB (char::encode_utf8 + region switch)
+    _no_verdict = {"stub_mut_str_push_up", "stub_mut_str_push_dn", "stub_mut_str_reserve_up", "stub_mut_str_push_str_dn"}  # no verdict within 10 min / 14 GB (char::encode_utf8 + region switch)
     _quick_mut_str = {"stub_mut_str_insert_str_refused_dn", "stub_mut_str_extend_within_no_region_dn", "stub_mut_str_push_refused_up", "stub_mut_str_reserve_refused_dn"}
     for m in _re.finditer(r"^    (stub_mut_str_\w+): (true|false), (\d+), \[(\d), (\d)\], \[(\d), (\d)\], (\d), (\d);", txt, _re.M):
         name, up, used, a, b, xa, xb, mode, op = m.groups()
@@ -468,6 +472,21 @@ def _stub_h():
         name, up, kind, refused = m.groups()
         fn, props, what = _mk[kind]
         k("h_stub::" + name, props, [fn], "B", what, bound="contract stub; 3-4 elements, values symbolic", timeout=600, inst="UP=%s refused=%s" % (up, refused))
+
+    for m in _re.finditer(r"^    (stub_into_cstr_\w+): (true|false), \[(\d), (\d)\], (true|false), (true|false);", txt, _re.M):
+        name, up, a, b, nul, refused = m.groups()
+        k("h_stub::" + name, ["C09", "C07", "C01"], ["bump_string::BumpString::{try_into_cstr,generic_into_cstr,into_boxed_str}"], "B",
+          "try_into_cstr of a text with UTF-8 length pattern [%s,%s] %s: the C string is the text up to the FIRST nul byte (byte index, also after multi-byte characters) plus the terminator; an error only when the terminator needs memory that is refused"
+          % (a, b, "followed by a nul and more text" if nul == "true" else "without a nul"), bound="contract stub; two characters, scalar values symbolic (non-nul)", timeout=900, inst="UP=%s refused=%s" % (up, refused))
+    for n_ in ("stub_twins_zst_slice_fill_with_up", "stub_twins_zst_slice_fill_dn", "stub_twins_zst_no_memory"):
+        k("h_stub::" + n_, ["C17"], ["traits::BumpAllocatorTypedScope::{alloc_slice_fill_with,try_alloc_slice_fill_with,alloc_slice_fill,try_alloc_slice_fill,alloc_slice_copy} with a zero-sized element type"], "B",
+          "zero-sized element types whose alignment exceeds the position's: the panicking method and its try_ twin return the same block, hand out the same number of bytes (none), call the closure once per element; neither asks the allocator for memory",
+          bound="contract stub; [u64;0] / [u32;0] / [u16;0], 2-3 elements", timeout=600)
+    for m in _re.finditer(r"^    (stub_mut_(?:rev_)?extend_within_\w+): (true|false), (true|false), (\d);", txt, _re.M):
+        name, up, rev, mode = m.groups()
+        k("h_stub::" + name, ["C08", "C07"], ["mut_bump_vec%s::{try_extend_from_within_copy,generic_extend_from_within_copy,generic_reserve}" % ("_rev::MutBumpVecRev" if rev == "true" else "::MutBumpVec")], "B",
+          "try_extend_from_within_copy(1..3) on a FULL exclusive vector of 4 elements (has to move to the newer region): same contents as the model (a reversed vector prepends the range as a whole); refused: nothing changes",
+          bound="contract stub; element values symbolic", timeout=900, inst="UP=%s mode=%s" % (up, mode))
 
 
 _stub_h()
